@@ -40,13 +40,17 @@ AllDevs == {"proto_opset_stale",    \* convert_version(ModelProto) copies back t
 PopCarriers == {"ir_version", "producer", "modelid", "model_doc", "model_meta", "opset_unused",
                 "graph_doc", "graph_meta", "io_meta", "node_doc", "node_meta", "attr_doc",
                 "value_info", "vi_meta", "init_doc", "init_meta", "func_meta"}
-Features == {"foldable", "deadnode", "call", "deadfunc", "rewritable", "subgraph", "init_io"}
+Features == {"foldable", "deadnode", "call", "deadfunc", "rewritable", "subgraph", "init_io",
+             "symdims",    \* connected values declare one extent under different dim_param names (joined by an Identity)
+             "constif"}    \* two Ifs with constant condition; each taken branch owns an initializer "w" shadowing
+                           \* the main-graph "w", whose first fresh name "w_1" is taken too
 Switches == PopCarriers \cup Features
 \* structure that is always there: the witness payload, the rest of the node list / initializer
 \* list, the interface, the opset imports in use, the two possible model-local functions
 StructCarriers == {"opset_main", "opset_custom", "opset_local", "fnF", "fnG", "graph_name", "io_sig",
-                   "init_payload", "nodes", "inits", "vi_implied"}
-Hidden == {"callsite"}                      \* not observed on its own (part of "nodes")
+                   "init_payload", "nodes", "inits", "vi_implied",
+                   "sym_dims"}    \* declared symbolic dimension names of graph inputs / outputs / value_info
+Hidden == {"callsite", "shadow"}   \* "shadow": the shadowing branch initializers of "constif" still exist                      \* not observed on its own (part of "nodes")
 Carriers == PopCarriers \cup StructCarriers \cup Hidden
 Observed == Carriers \ Hidden
 ModelLevel == {"ir_version", "producer", "modelid", "model_doc", "model_meta", "opset_unused",
@@ -68,12 +72,14 @@ Model(api, pop, feat) ==
   [c \in Carriers |->
      CASE c = "ir_version" -> "v"                                   \* the switch only selects which value
        [] c = "func_meta" -> IF c \in pop /\ HasFns(api, feat) THEN "v" ELSE "none"
-       [] c = "value_info" -> IF "value_info" \in pop \/ "vi_meta" \in pop THEN "v" ELSE "none"
+       [] c = "value_info" -> IF "value_info" \in pop \/ "vi_meta" \in pop \/ "symdims" \in feat THEN "v" ELSE "none"
+       [] c = "sym_dims" -> IF "symdims" \in feat THEN "v" ELSE "none"
        [] c \in PopCarriers -> IF c \in pop THEN "v" ELSE "none"
        [] c = "opset_local" -> IF "call" \in feat \/ HasFns(api, feat) THEN "v" ELSE "none"
        [] c = "fnF" -> IF api # "replace_functions" /\ "call" \in feat THEN "v" ELSE "none"
        [] c = "fnG" -> IF api # "replace_functions" /\ "deadfunc" \in feat THEN "v" ELSE "none"
        [] c = "callsite" -> IF "call" \in feat THEN "v" ELSE "none"
+       [] c = "shadow" -> IF "constif" \in feat THEN "v" ELSE "none"
        [] c = "vi_implied" -> "none"
        [] OTHER -> "v"]
 
@@ -103,22 +109,32 @@ Pipeline(api) ==
 
 FoldAll(m) == [m EXCEPT !["nodes"] = "x", !["inits"] = "x",
                           !["fnF"] = IF @ = "none" THEN @ ELSE "x", !["fnG"] = IF @ = "none" THEN @ ELSE "x"]
+\* the Identity of "symdims" is eliminated (declared dim names of both sides stay as declared); the taken
+\* branches of "constif" are inlined and their initializers moved to the main graph under fresh names
+FoldStruct(m, feat) == [m EXCEPT !["nodes"] = IF {"symdims", "constif"} \cap feat # {} THEN "x" ELSE @,
+                                 !["inits"] = IF "constif" \in feat THEN "x" ELSE @,
+                                 !["shadow"] = "none"]
+\* a rewrite rule fires while the constant Ifs (and their shadowing initializers) are still there
+RuleFiresOnShadow(m, feat) == {"rewritable", "constif"} \subseteq feat /\ m["shadow"] = "v"
 Apply(pass, m, feat) ==
   CASE pass = "Inline" -> IF m["callsite"] = "v" /\ m["fnF"] # "none"
                           THEN [m EXCEPT !["callsite"] = "none", !["fnF"] = "none", !["nodes"] = "x"] ELSE m
     [] pass = "AddFuncs" -> [m EXCEPT !["fnF"] = IF "call" \in feat THEN "v" ELSE @,
                                       !["fnG"] = IF "deadfunc" \in feat THEN "x" ELSE @]
     \* constant folding also folds the constant sub-expression inside the bodies of model-local functions
-    [] pass = "Fold" -> IF "foldable" \in feat THEN FoldAll(m) ELSE m
+    [] pass = "Fold" -> FoldStruct(IF "foldable" \in feat THEN FoldAll(m) ELSE m, feat)
     \* FoldConstantsPass(shape_inference=True): node-level shape inference annotates values that
     \* have no value_info yet (existing annotations are kept)
-    [] pass = "FoldInfer" -> LET f == IF "foldable" \in feat THEN FoldAll(m) ELSE m
+    [] pass = "FoldInfer" -> LET f == FoldStruct(IF "foldable" \in feat THEN FoldAll(m) ELSE m, feat)
                              IN [f EXCEPT !["value_info"] = IF @ = "none" THEN "x" ELSE @,
                                           !["nodes"] = IF {"deadnode", "rewritable"} \cap feat # {} THEN "x" ELSE @]  \* their values get annotated too
     \* the default rules collapse the Transpose pair; matching reads constants, which annotates
     \* the output of a Constant node (main graph and function bodies) with the type of its tensor
-    [] pass = "Rewrite" -> IF "foldable" \in feat THEN [FoldAll(m) EXCEPT !["inits"] = m["inits"]]   \* (annotations only)
-                           ELSE IF "rewritable" \in feat THEN [m EXCEPT !["nodes"] = "x"] ELSE m
+    \* When a rule fired, apply_to_model ends with NameFixPass, which makes value names globally unique:
+    \* the branch-owned initializers of "constif" that shadow the outer "w" are renamed.
+    [] pass = "Rewrite" -> LET r == IF "foldable" \in feat THEN [FoldAll(m) EXCEPT !["inits"] = m["inits"]]   \* (annotations only)
+                                    ELSE IF "rewritable" \in feat THEN [m EXCEPT !["nodes"] = "x"] ELSE m
+                           IN IF RuleFiresOnShadow(m, feat) THEN [r EXCEPT !["inits"] = "x", !["nodes"] = "x"] ELSE r
     [] pass = "RmNodes" -> IF "deadnode" \in feat THEN [m EXCEPT !["nodes"] = "x"] ELSE m
     [] pass = "RmFuncs" -> [m EXCEPT !["fnG"] = "none", !["fnF"] = IF m["callsite"] = "v" THEN @ ELSE "none"]
     [] pass = "RmOpsets" -> [m EXCEPT !["opset_unused"] = "none",
@@ -131,7 +147,11 @@ Apply(pass, m, feat) ==
     [] pass = "ConvertUp" -> [m EXCEPT !["opset_main"] = "x"]
     [] OTHER -> m           \* Dedup, CSE, NameFix, ConvertSame: nothing to do on the host model
 \* carriers of the caller's TensorProtos a pass writes *in place* (Value.name setter -> TensorProto.name)
-WritesInPlace(pass, feat) == IF pass = "OutputFix" /\ "init_io" \in feat THEN {"inits"} ELSE {}
+\* (OutputFixPass renaming the input+output initializer; If-inlining / NameFixPass renaming a shadowing branch initializer)
+WritesInPlace(pass, m, feat) == IF \/ (pass = "OutputFix" /\ "init_io" \in feat)
+                                   \/ (pass \in {"Fold", "FoldInfer"} /\ "constif" \in feat)
+                                   \/ (pass = "Rewrite" /\ RuleFiresOnShadow(m, feat))
+                                THEN {"inits"} ELSE {}
 
 RECURSIVE RunAll(_, _, _)
 RunAll(ps, m, feat) == IF ps = <<>> THEN m ELSE RunAll(Tail(ps), Apply(Head(ps), m, feat), feat)
@@ -187,7 +207,7 @@ RunPass == /\ pc = "passes"
               w' = [k \in Variants |->
                       [w[k] EXCEPT !.irm = Apply(p, @, Feat),
                                    !.todo = Tail(@),
-                                   !.arg = [c \in Carriers |-> IF c \in WritesInPlace(p, Feat) \cap w[k].shared
+                                   !.arg = [c \in Carriers |-> IF c \in WritesInPlace(p, w[k].irm, Feat) \cap w[k].shared
                                                                THEN "x" ELSE w[k].arg[c]]]]
            /\ UNCHANGED <<api, on, dense, pc, out>>
 \* ir.serde.serialize_model(model_ir)   /   ir.to_proto(model.graph) for convert_version
